@@ -47,8 +47,8 @@ Proof. intros A B R l1 l2 F. induction F; cbn [List.length]; congruence. Qed.
 Lemma enc_ok_size : forall a sz, encode_attr a = EncOk sz -> msg_size a = sz /\ 0 < sz.
 Proof.
   intros a sz H. unfold msg_size. rewrite H. split; [reflexivity|]. unfold encode_attr in H.
-  destruct (aname a) as [|b t]; [discriminate|]. destruct (dt_len (aval a)); [|discriminate]. destruct (ds_len (aval a)); [|discriminate].
-  destruct (65535 <=? blen (b :: t)); inversion H. lia.
+  destruct (aname a) as [|b t]; [discriminate|]. destruct (65535 <=? blen (b :: t)); [discriminate|].
+  destruct (dt_len (aval a)); [|discriminate]. destruct (ds_len (aval a)); inversion H. lia.
 Qed.
 
 Lemma heap_insert_err : forall hp a, heap_insert P hp a = HErr -> msg_size a = 0 \/ p_maxobj P < msg_size a.
@@ -80,7 +80,7 @@ Theorem write_refusals_dense : p_hcap P <= 65536 -> forall ix hp l n v st' r,
   dense_refusal P (Dense ix hp) l (mkAttr n v).
 Proof.
   intros Hcap ix hp l n v st' r R ND Inj H ER. subst r. cbn [write_attr] in H. unfold write_dense in H.
-  destruct (encode_attr (mkAttr n v)) as [sz| |] eqn:EN; [|apply DR_encode; exact EN | discriminate].
+  destruct (encode_attr (mkAttr n v)) as [sz|] eqn:EN; [|apply DR_encode; exact EN].
   destruct (enc_ok_size _ _ EN) as [MS POS]. cbn [aname] in H. cbn [Rep] in R. destruct R as [F [N1 [N2 W]]].
   assert (LEN : List.length ix = List.length l) by (eapply F2_length; exact F).
   pose proof (search_split name_hash hp ix l n F Inj) as SS.
@@ -132,7 +132,7 @@ Proof.
   rewrite <- EN in *.
   destruct (existsb (bytes_eqb (aname a)) seen) eqn:EX.
   { exists [], a, r. split; [reflexivity|]. right; left. cbn [map]. rewrite app_nil_r. apply existsb_bytes_in. exact EX. }
-  destruct (encode_attr a) as [sz| |] eqn:EA; [| |discriminate].
+  destruct (encode_attr a) as [sz|] eqn:EA.
   2:{ exists [], a, r. split; [reflexivity|]. right; right; left. exact EA. }
   destruct (enc_ok_size _ _ EA) as [MS POS].
   destruct (heap_insert P hp a) as [hp1 id| |] eqn:HI; [| |discriminate].
@@ -204,7 +204,7 @@ Proof.
   intros attrs n v st' EA ND NC FIT LM NT H. unfold transition in H.
   assert (DUP : In n (map aname attrs) -> compact_refusal P attrs (mkAttr n v)).
   { intro HI. destruct NT as [TH|[NI _]]; [apply CR_overwrite_at_threshold; assumption | contradiction]. }
-  destruct (daw_add_all name_hash P [] [] heap_empty (attrs ++ [mkAttr n v])) as [ix hp| | |] eqn:D.
+  destruct (daw_add_all name_hash P [] [] heap_empty (attrs ++ [mkAttr n v])) as [ix hp| |] eqn:D.
   - destruct (N.ltb_spec (p_limit P) (p_base P + (4 + p_info P))); [|discriminate]. apply CR_info_no_room; assumption.
   - destruct (daw_err_cases _ _ _ _ D) as [pre [x [post [E C]]]]. cbn [app map List.length] in C.
     destruct (split_last _ _ _ _ _ (eq_sym E)) as [[-> [-> ->]]|[post' [-> ->]]].
@@ -233,7 +233,6 @@ Proof.
         { apply NC; [right; apply in_map; apply in_or_app; left; exact HI | right; apply in_map; exact HIx | exact Ey]. }
         apply NIx. rewrite map_app. apply in_or_app. left. rewrite <- H0. apply in_map. exact HI.
       * apply CR_index_small; [exact NT|]. rewrite app_length. cbn [List.length]. lia.
-  - discriminate.
   - destruct (daw_full_cases _ _ _ _ D) as [pre [x [post [E C]]]]. cbn [heap_empty hfree] in C.
     pose proof (msgs_total_prefix pre x post) as MP. rewrite <- E, msgs_total_app in MP. cbn [msgs_total] in MP.
     destruct (p_ovf_err P) eqn:OV.
@@ -250,7 +249,7 @@ Theorem write_refusals_compact : forall attrs n v st' r,
 Proof.
   intros attrs n v st' r EA ND NC FIT LM H ER. subst r. cbn [write_attr] in H.
   destruct (N.ltb_spec (N.of_nat (List.length attrs)) (p_maxc P)) as [LT|GE].
-  - unfold write_compact in H. destruct (encode_attr (mkAttr n v)) as [sz| |] eqn:EN; [|apply CR_encode; exact EN | discriminate].
+  - unfold write_compact in H. destruct (encode_attr (mkAttr n v)) as [sz|] eqn:EN; [|apply CR_encode; exact EN].
     destruct (enc_ok_size _ _ EN) as [MS _]. cbn [aname] in H.
     destruct (replace_name n (mkAttr n v) attrs) as [attrs'|] eqn:RN.
     + destruct (N.ltb_spec (p_limit P) (hdr_size P attrs')); [|discriminate].
